@@ -384,6 +384,65 @@ def do_tables(_):
     return out
 
 
+# ------------------------------------------------------------------------------------------------- histories
+def compile_via(pdk, via, top):
+    pk = pdk_pkg(pdk)
+    pm = pdk_module(pdk)
+    if via == "direct":
+        pk.compile(top)
+    elif via == "name":
+        h.pdk.compile(top, pdk=pm.__name__)
+    elif via == "module":
+        h.pdk.compile(top, pdk=pm)
+    elif via == "default":
+        h.pdk.set_default(pm)
+        h.pdk.compile(top)
+    else:
+        raise ValueError(via)
+
+
+def do_history(job):
+    """ONE module table (a module several instances refer to is one object), a sequence of compilations
+    [pdk, via, entered module]; the table is observed after every compilation, whether it returned or raised.
+    Object identities of device calls are numbered once for the whole history."""
+    out = dict(pre=None, steps=[], err=None)
+    try:
+        for pdk in job.get("register", []) + [op[0] for op in job["ops"]]:
+            pdk_pkg(pdk)                                   # importing a PDK package registers it
+        mods = build_design(job, f"h{job['id']}")
+        roots = [m for k, m in enumerate(mods) if not any(it["t"] == "mod" and it["ref"] == k for md in job["mods"] for it in md["insts"])]
+        h.elaborate(roots)
+    except Exception as e:
+        out["err"] = dict(phase="build", **err(e))
+        return out
+    ids = Ids()
+    out["pre"] = report_design(mods, ids)
+    for pdk, via, top in job["ops"]:
+        st = dict(post=None, err=None, netlist=None)
+        try:
+            compile_via(pdk, via, mods[top])
+        except BaseException as e:
+            st["err"] = dict(phase="compile", **err(e))
+        st["post"] = report_design(mods, ids)
+        if st["err"] is None:
+            nl = {}
+            for fmt in ("spice", "spectre"):
+                try:
+                    s = io.StringIO()
+                    h.netlist(mods[top], dest=s, fmt=fmt)
+                    nl[fmt] = ["ok", len(s.getvalue())]
+                except BaseException as e:
+                    nl[fmt] = ["err", type(e).__name__]
+            try:
+                pkg = h.to_proto(mods[top])
+                nl["proto"] = ["ok", len(pkg.modules)]
+            except BaseException as e:
+                nl["proto"] = ["err", type(e).__name__]
+            st["netlist"] = nl
+        out["steps"].append(st)
+    return out
+
+
 def handler(p):
     kind = p["kind"]
     if kind == "tables":
@@ -392,7 +451,7 @@ def handler(p):
         return do_registry(p)
     if kind == "cells_list":
         return dict(results=do_cells_list(None))
-    f = dict(design=do_design, cell=do_cell)[kind]
+    f = dict(design=do_design, cell=do_cell, history=do_history)[kind]
     return dict(results=[f(j) for j in p["jobs"]])
 
 
